@@ -448,10 +448,13 @@ def run_case(case, stats):
                 # wait: let retransmission timers expire, one expiry instant at a time (new segments sent
                 # meanwhile -- an application-paced flow -- arm new timers: the next expiry is recomputed then)
                 until = env.now + evn[1]
+                # a timer whose expiry coincides with the end of the wait up to rounding (armed at a0 for r, the kernel
+                # computes a0 + r by another route) belongs to this wait, whichever side of `until` the sum falls on
+                edge = until + 1e-9 * max(1.0, abs(until))
                 n0 = len(txlog)
                 while not viol:
                     live = {s: a0 + r for s, (a0, r) in arm.items()}
-                    due = [t for t in live.values() if t <= until]
+                    due = [t for t in live.values() if t <= edge]
                     if not due:
                         break
                     tnext = min(due)
@@ -506,7 +509,7 @@ def run_case(case, stats):
                 again = False
                 while env.peek() <= until:
                     env.step()
-                    if set(arm) != armed and any(a0 + r <= until for (a0, r) in arm.values()):
+                    if set(arm) != armed and any(a0 + r <= edge for (a0, r) in arm.values()):
                         again = True
                         break
                 if again:
